@@ -32,7 +32,10 @@ NucInstances == <<
     M("TN93",  1, "word", << <<"kappa_y", R(5,1)>>, <<"kappa_r", R(3,1)>> >>, Pi1(1,2,1,2), TRUE, TRUE, "k53"),
     M("TN93",  1, "word", << <<"kappa_y", R(2,1)>>, <<"kappa_r", R(7,1)>> >>, Pi1(2,1,1,1), TRUE, TRUE, "k27"),
     M("GTR",   1, "word", GTRp, Pi1(1,2,3,4), TRUE, TRUE, "primes"),
-    M("GN",    1, "none", GNp, Pi1(1,2,3,4), FALSE, FALSE, "primes")
+    M("GN",    1, "none", GNp, Pi1(1,2,3,4), FALSE, FALSE, "primes"),
+    \* user-built predicate models: overlapping predicates multiply; a directed predicate in a general model
+    M("user:TimeReversibleNucleotide", 1, "word", << <<"u_or", R(3,1)>>, <<"u_not_ac", R(5,1)>> >>, Pi1(1,2,3,4), TRUE, TRUE, "algebra"),
+    M("user:NonReversibleNucleotide",  1, "none", << <<"u_fwd", R(3,1)>> >>, Pi1(1,2,3,4), FALSE, FALSE, "directed")
 >>
 
 CodonInstances == <<
